@@ -36,6 +36,9 @@ ASSUMPTIONS = [
     "(head internal, tail present) with length1 + length2 = the edge's length, to_outgroup_position any non-seed "
     "node, reroot_at_midpoint trees with >= 2 leaves and all non-root edge lengths defined; leaves / terminal edges "
     "as targets are explored in the thorough tier as information only and never decide",
+    "deciding inputs have a seed node of out-degree >= 2 (or are a single leaf): a seed with one child is a degree-one "
+    "vertex of the unrooted tree, for which 'leaf set' is ambiguous; such drawings are explored and only counted; "
+    "'leaf' = childless node (DendroPy's leaf_node_iter), so a taxon-bearing node that becomes the root is a lost leaf",
     "total tree length = Tree.length() semantics (sum over all edges including the seed edge)",
     "midpoint oracle is existential over tied most-distant pairs; float comparison exact for dyadic length patterns, "
     "relative 1e-9 otherwise",
@@ -88,8 +91,8 @@ def bounds(tier):
                                          "{1,2} binary n = 6 (default flags)"]),
         },
         "rootings": "rooted, unrooted; undefined for the unit pattern" + (" (and none / distinct-integer patterns n <= 4)" if q else
-                    ", none and distinct-integer patterns (n = 6: unit, distinct integers; binary shapes also non-dyadic, "
-                    "none-unrooted, unit-undefined)"),
+                    ", none and distinct-integer patterns (n = 6: unit; binary shapes also distinct integers, non-dyadic, "
+                    "none-unrooted, unit-undefined, {1,2}-unrooted)"),
         "edge_length_pairs": ["0,L", "L/2,L/2", "L,0", "L/4,3L/4", "None,None (length-free trees)"],
         "rng_seeds": [0, 1, 2, 3], "shuffle_indices": [0, 1, 2, 3, 4, 5],
         "reorient_scripted_shuffle_index_and_update_flag": [[1, False], [3, True]] if q else [[0, False], [1, False], [1, True], [3, True], [5, False]],
@@ -188,7 +191,8 @@ def length_patterns(layer, shape, n, tier):
             add("none", pat_none(k), True, "full")
             add("nondyadic", pat_nondyadic(k), False, "full")
         add("unit", pat_unit(k), True, "full")
-        add("inc", pat_inc(k), True, "full")
+        if n <= 5 or U.is_binary(shape):
+            add("inc", pat_inc(k), True, "full")
         if n <= 4:
             add("rootedge", pat_rootedge(k), True, "full")
             m = "full" if (n <= 3 or not q) else "lengthy"
@@ -215,7 +219,7 @@ def length_patterns(layer, shape, n, tier):
                 add("x12", lens, True, "midpoint-default")
     elif layer == "order":
         add("inc", pat_inc(k), True, "full")
-        if n <= 3 or not q:
+        if n <= 3 or (n == 4 and not q):
             add("unit", pat_unit(k), True, "full")
     elif layer == "unif":
         add("inc", pat_inc(k), True, "full")
@@ -227,7 +231,7 @@ def length_patterns(layer, shape, n, tier):
 
 def rootings_for(layer, pname, n, tier, shape=None):
     if n >= 6:
-        if pname == "none":
+        if pname in ("none", "x12"):
             return (False,)
         if pname == "unit" and U.is_binary(shape):
             return (True, False, None)
